@@ -4,5 +4,6 @@ NEXT Next
 INVARIANT InvValidSplit
 INVARIANT InvStepsFit
 INVARIANT InvMinimal
+INVARIANT InvLemmaHypotheses
 INVARIANT InvMultiDisp
 CHECK_DEADLOCK FALSE
